@@ -18,7 +18,7 @@ func urlUserPassword(u, p string) *url.Userinfo { return url.UserPassword(u, p) 
 
 func idOf(r *reqmodel.Request) string {
 	for _, f := range r.Fields {
-		if f.Name == "X-Case-Id" {
+		if f.Name == "Case-Id" {
 			return f.Value
 		}
 	}
@@ -105,7 +105,7 @@ func Run(ctx *core.Ctx) {
 	for _, c := range core.LoadCorpus(ctx.Root, "C01") {
 		replayWith(ctx, pool, c)
 	}
-	nConn := ctx.N(450, 12000)
+	nConn := ctx.N(2500, 40000)
 	modes := []string{"direct", "direct", "upstream", "upstream-auth", "mitm"}
 	type job struct {
 		cc *connCase
